@@ -214,7 +214,7 @@ class C19(diffcheck.DiffProp):
     pid = "C19"
     manifest = dict(
         text="Coq proofs over labelled transition systems of compio-actor in which every atomic operation on shared state (is_closed check, try_send, stop swap / push, each poll of the biased select, begin_stop, each hook, the receiver's drain and disconnection, task cancellation) is one label, for any number of sending/stopping threads and every interleaving: accepted = handled ++ dropped ++ queued (serial FIFO, at most one handler in progress, the head of the queue is the only message that can be taken next, an idle actor has handled everything it accepted), the lifecycle trace has the documented shape on every exit path, every accepted call has its reply port used or dropped once the actor is gone (with the repaired receiver; a witness shows the hang of the code before the fix), the registry maps a name to at most one holder / is invisible before activation / free after release, and ProcessGroup::send (pure function) delivers to exactly one live non-full member or hands the message back after trying every member once, evicting exactly the closed ones. Tied to the code by exact comparison of deterministic actor programs with the extracted interpreter, acceptance of logs recorded from concurrent threads by the extracted LTS (search over the silent steps), and an oracle on the implementation's outputs.",
-        note="flume is an assumed linearizable FIFO whose queued items live while a sender lives; the handlers' behaviour is scripted; weak memory is not modelled. Residual window proved precisely, not closed: a send that passed its closed-check before the mailbox closed and pushes between the receiver's drain and its disconnection is stranded (C19_call_answered names it `late`; on the finish() paths C19_late_only_overlap shows only such overlapping sends can be late). Cancellation by Cluster::join skips pre_stop/post_stop (modelled as the label ECancel; the trace is then a prefix). Concurrent process-group programs are judged by the oracle only; their routing is proved on the pure function and compared exactly on deterministic programs. Trusted: Coq kernel, extraction + driver, harness/ext/src/bin/c19.rs, tools/p_c19.py. No axioms.",
+        note="flume is an assumed linearizable FIFO whose queued items live while a sender lives; the handlers' behaviour is scripted; weak memory is not modelled. Known finding C19-late-push (reproduced on the real crate by forced schedules through compio_actor::verif scheduling points, corpus cases `4 1`, `4 2`; witness lemma C19_call_answered_no_exception_refuted): the window is proved precisely, not closed: a send that passed its closed-check before the mailbox closed and pushes between the receiver's drain and its disconnection is stranded (C19_call_answered names it `late`; on the finish() paths C19_late_only_overlap shows only such overlapping sends can be late). Cancellation by Cluster::join skips pre_stop/post_stop (modelled as the label ECancel; the trace is then a prefix). Concurrent process-group programs are judged by the oracle only; their routing is proved on the pure function and compared exactly on deterministic programs. Trusted: Coq kernel, extraction + driver, harness/ext/src/bin/c19.rs, tools/p_c19.py. No axioms.",
         technique="Coq invariant proofs over LTSs + pure-function theorem; exact differential of deterministic programs; log acceptance by the extracted LTS; oracle")
     prop_file = "prop/C19.v"
     model_name = "c19"
@@ -223,12 +223,13 @@ class C19(diffcheck.DiffProp):
     gen = gen_c19
     shards = 10
     thorough_release = False
-    counts = {"quick": 700, "thorough": 12000}
+    counts = {"quick": 560, "thorough": 12000}
     rule = ("kind 1: deterministic programs (<= 6 actors, 3..16 operations) of spawn named/unnamed x capacity 1..8 x "
             "failing hooks x supervisor x dropped spawn future, send/call with behaviours ok/fail/gate/stop-self/no-reply/yield/sleep, "
             "stop, lookup, gate release, group join/leave/send/call/len, 1..4 workers, graceful end or Cluster::join; "
             "kind 2: 1..4 threads x 1..6 operations (send/call/stop) on one mailbox of capacity 1..8; "
-            "kind 3: 1..4 threads joining/leaving/sending through one process group over 1..4 actors (some stopped before). "
+            "kind 3: 1..4 threads joining/leaving/sending through one process group over 1..4 actors (some stopped before); "
+            "kind 4 (corpus): two forced schedules of the drain/disconnect window. "
             "non-trivial = at least one handler ran; distinct = distinct programs")
     trusted_base = [
         "Coq 8.16.1 kernel (coqc, full .vo build)",
